@@ -351,6 +351,34 @@ theorem frames_classified_template (reg : Tb.Registry) (f : Tb.Frame) (info : Tb
     simp only [h2, if_true]
     exact Tb.pyGet_pred _ _ h1
 
+/-- the source text shown for template line `n`: the lines of a template are its `'\n'`-delimited pieces
+    and nothing else – whatever stands above the line (form feed, vertical tab, FS/GS/RS, NEL,
+    U+2028/U+2029, lone CR; anything that is not `'\n'`) does not shift it.  `above` is everything before
+    the newline that precedes the line; the lexer gives the line the number `2 + countNL above`. -/
+theorem source_line_is_nth_newline_delimited (above text below : Str) (h : '\n' ∉ text) :
+    (Tb.linesOf (above ++ '\n' :: (text ++ '\n' :: below)))[(2 + countNL above) - 1]? = some text ∧
+    (Tb.linesOf (above ++ '\n' :: text))[(2 + countNL above) - 1]? = some text := by
+  have hl := splitNL_length above
+  constructor
+  · unfold Tb.linesOf
+    rw [splitNL_append, splitNL_append, splitNL_of_clean text h]
+    rw [List.getElem?_append_right (by omega)]
+    have : 2 + countNL above - 1 - (splitNL above).length = 0 := by omega
+    rw [this]; rfl
+  · unfold Tb.linesOf
+    rw [splitNL_append, splitNL_of_clean text h]
+    rw [List.getElem?_append_right (by omega)]
+    have : 2 + countNL above - 1 - (splitNL above).length = 0 := by omega
+    rw [this]; rfl
+
+/-- … and the first line -/
+theorem source_line_first (text below : Str) (h : '\n' ∉ text) :
+    (Tb.linesOf (text ++ '\n' :: below))[0]? = some text := by
+  unfold Tb.linesOf
+  rw [splitNL_append, splitNL_of_clean text h]; rfl
+
+example : (Tb.linesOf "a\x0cb\u2028c\rd\n${1/0}\nlast".toList)[1]? = some "${1/0}".toList := by decide
+
 /-- **frames_classified** (3): one record per frame, in order, whatever the mix of template and
     ordinary modules (several templates in one traceback included) -/
 theorem frames_classified_all (reg : Tb.Registry) (fs : List Tb.Frame) (rs : List Tb.Record)
